@@ -33,7 +33,5 @@ fuzz_target!(|data: &[u8]| {
     segs.push(Seg { kind, start, len });
   }
   let mut rec = Rec::new();
-  if let Err(v) = check_pushes(&Pushes { depth, full, capacity, segs }, &mut rec) {
-    panic!("C15 violation: {}/{}: {}", v.check, v.kind, v.detail);
-  }
+  hpxv::engine::fuzz_verdict("C15", check_pushes(&Pushes { depth, full, capacity, segs }, &mut rec));
 });
